@@ -91,7 +91,9 @@ class Canonicalizer:
         elif isinstance(expression, Product):
             # note: safe already sorts
             return Product.safe(
-                self.canonicalize(subexpr) for subexpr in _flatten_product(expression)
+                _flatten_expressions(
+                    self.canonicalize(subexpr) for subexpr in _flatten_product(expression)
+                )
             )
         elif isinstance(expression, Fraction):
             numerator = self.canonicalize(expression.numerator)
@@ -110,6 +112,15 @@ class Canonicalizer:
 
 def _flatten_product(product: Product) -> Iterable[Expression]:
     for expression in product.expressions:
+        if isinstance(expression, Product):
+            yield from _flatten_product(expression)
+        else:
+            yield expression
+
+
+def _flatten_expressions(expressions: Iterable[Expression]) -> Iterable[Expression]:
+    """Flatten products that only appear after canonicalizing the factors."""
+    for expression in expressions:
         if isinstance(expression, Product):
             yield from _flatten_product(expression)
         else:
